@@ -4,7 +4,7 @@
 
       run <fuel> <sexp>          -> Res.show (run P fuel)
       rw <name> <fuel> <sexp>    -> Res.show (run (R P) fuel)  for the Lean-defined rewrite R
-                                     (deadcode | iffalse | noop | blockwrap), "changed=0|1" appended
+                                     (deadcode | iffalse | noop | blockwrap | exprvoid), "changed=0|1" appended
 
   Parsing is IO glue (partial defs); it is not part of any theorem.
 -/
@@ -12,6 +12,7 @@ import GojaModel.Base.Proto
 import GojaModel.C02.Model
 import GojaModel.C02.Rewrites
 import GojaModel.C02.Wrap
+import GojaModel.C02.Erase
 
 namespace GojaModel.C02.Driver
 open GojaModel.C02
@@ -154,6 +155,8 @@ partial def toStmt : SExp → Option Stmt
   | .list [.atom "do", b, c] => do some (.doWhile (← toStmt b) (← toExpr c))
   | .list [.atom "for", i, t, u, b] => do
       some (.for (← toForInit i) (← toOptExpr t) (← toOptExpr u) (← toStmt b))
+  | .list [.atom "forof", .atom k, .atom x, e, b] => do
+      some (.forOf (← declKind? k) x (← toExpr e) (← toStmt b))
   | .list [.atom "break", l] => some (.brk (optName l))
   | .list [.atom "continue", l] => some (.cont (optName l))
   | .list [.atom "return", e] => do some (.ret (← toOptExpr e))
@@ -211,7 +214,12 @@ def handle (line : String) : String :=
   else if cmd == "rw" then
     let (name, rest2) := splitWord rest
     let (fuel, src) := splitWord rest2
-    if name == "blockwrap" then
+    if name == "exprvoid" then
+      -- depth-changing rewrite (theorem expr_stmt_void_ge): doubled fuel
+      match fuel.toNat?, parseProg src with
+      | some n, some P => (run (exprStmtVoid P) (2 * n)).show ++ " | changed=1"
+      | _, _ => "parse-error"
+    else if name == "blockwrap" then
       -- depth-changing rewrite: run the wrapped program with twice the fuel (theorem block_wrap_ge)
       match fuel.toNat?, parseProg src with
       | some n, some P =>
